@@ -188,6 +188,9 @@ func c18Gen(seed uint64, tier string) *Plan {
 	p.Horizon = horizon
 	p.SortActions()
 	p.Params = map[string]any{"limit": limit, "conc": conc, "max_silences": maxSil, "max_silence_size": maxSize}
+	if ra := rng.Fork("autoholds"); ra.Bool(0.3) {
+		p.Holds = append(p.Holds, AutoHolds(ra, []string{"mem.Alerts.gcAlerts", "store.Alerts.gcAlerts", "store.Alerts.gcLimitBuckets"}, ra.Range(1, 2), 16, 50*time.Millisecond, 30*time.Second)...)
+	}
 	return p
 }
 
